@@ -45,6 +45,7 @@ def run(ctx):
         ctx.design("Xss/XssNest.tla", "XssNest.cfg", workers=W, timeout=1500, heap="12g")
         ctx.design("Xss/XssNest.tla", "XssNest_kinds.cfg", workers=W, timeout=1500, heap="12g")
         ctx.design("Xss/XssTokD.tla", "XssTokD.cfg", workers=W, timeout=1700, heap="12g")
+        ctx.design("Xss/XssTokD.tla", "XssTokD_len5.cfg", workers=W, timeout=1500, heap="12g")
         ctx.design("Xss/XssTokD.tla", "XssTokD_wide.cfg", workers=W, timeout=1500, heap="12g")
         ctx.design("Xss/XssTokD.tla", "XssTokD_pair.cfg", workers=W, timeout=1500, heap="12g")
     # non-vacuity of the design invariants: without pair invalidation FilterValid must break
@@ -76,11 +77,11 @@ def run(ctx):
         job("rnd", ["rnd", 900, 200, 0, 1] + fam, 3)
     else:
         fam = list(range(32)) + [33, 38, 44, 51]
-        job("chars", ["frag", "chars", 5, 0, 1, X], 8)
+        job("chars", ["frag", "chars", 4, 0, 1, X, H], 2)
         job("frag", ["frag", "frag", 5, 0, 1, H], 8)
         job("attr", ["frag", "attr", 5, 0, 1, X], 8)
         job("attrh", ["frag", "attr", 4, 0, 1, H, X2], 1)
-        job("tok", ["frag", "tok", 5, 0, 1, X, H, X2, H2, erid(2, 3, 1), erid(2, 3, 0), erid(3, 0, 1), erid(1, 1, 0, 0, 0)], 16)
+        job("tok", ["frag", "tok", 5, 0, 1, X, H, X2, H2, erid(2, 3, 1), erid(1, 1, 0, 0, 0)], 12)
         job("tok2", ["frag", "tok2", 4, 0, 1, X, H, X2, H2, erid(2, 3, 1), erid(3, 3, 0)], 2)
         job("chars2", ["frag", "chars2", 4, 0, 1, erid(3, 1, 1, 1, 1, 1), erid(3, 1, 0, 1, 1, 3), erid(3, 1, 0, 1, 1, 2)], 2)
         job("rnd", ["rnd", 3000, 400, 0, 1] + fam, 12)
@@ -102,7 +103,7 @@ def run(ctx):
         for x in rej:
             report(ctx, shard, x)
     # drift: the mechanism model's own prediction (never a violation)
-    dtr = [t for t in traces if not q or any(k in os.path.basename(t) for k in ("tok", "rnd"))]
+    dtr = [t for t in traces if any(k in os.path.basename(t) for k in (("tok", "rnd") if q else ("tok", "rnd", "attr")))]
     dres = shard.parallel_print_pass(ctx, "Xss/XssTokTrace.tla", "XssTokDrift.cfg", dtr, "DRIFT", threads=NT)
     nd = 0
     for t, rows in dres.items():
